@@ -387,10 +387,10 @@ theorem readPtr_of_scanned {s : St} {b f o : Nat} {r : Rec} (h : (o, r) ∈ scan
 theorem liveTest_eq {c : VCfg} (hc : c.LiveEq) (m : List LEnt) (b f o : Nat) (r : Rec) :
     liveTest c m b f o r = true ↔
       ∃ e p, lookup m r.key r.ver = some e ∧ e.v = .ptr p ∧ p.bucket = b ∧ p.fid = f ∧ p.off = o := by
-  obtain ⟨h1, h2, h3⟩ := hc
+  obtain ⟨h1, h2, h3, h4⟩ := hc
   unfold liveTest
   cases hl : lookup m r.key r.ver with
-  | none => simp
+  | none => simp [h4]
   | some e =>
     cases hv : e.v with
     | inl x d => simp [hv]
@@ -411,7 +411,7 @@ theorem liveTest_of_exact {c : VCfg} (hc : c.LiveSeq) (m : List LEnt) (b f o : N
     (h : ∃ e p, lookup m r.key r.ver = some e ∧ e.v = .ptr p ∧ p.bucket = b ∧ p.fid = f ∧ p.off = o) :
     liveTest c m b f o r = true := by
   obtain ⟨e, p, hl, hv, hb, hf, ho⟩ := h
-  obtain ⟨hops, h3⟩ := hc
+  obtain ⟨hops, h3, _⟩ := hc
   unfold liveTest
   simp only [hl, hv, h3]
   rcases hops with ⟨h1, h2⟩ | ⟨h1, h2⟩ <;> simp [h1, h2, CmpOp.nat, CmpOp.eval, hb, hf, ho]
@@ -513,7 +513,7 @@ theorem wf_gc {c : VCfg} (hc : c.LiveSeq) {s : St} (h : WF s) (b f : Nat) : WF (
 /-- `rewrite` with the exact liveness test changes no read -/
 theorem read_gc {c : VCfg} (hc : c.LiveEq) {s : St} (h : WF s) (b f : Nat) (k : Bytes) (v : Nat) :
     readKV (gc c s b f).1 k v = readKV s k v := by
-  have hseq : c.LiveSeq := ⟨Or.inl ⟨hc.1, hc.2.1⟩, hc.2.2⟩
+  have hseq : c.LiveSeq := ⟨Or.inl ⟨hc.1, hc.2.1⟩, hc.2.2.1, hc.2.2.2⟩
   unfold gc
   split
   · rfl
